@@ -33,8 +33,11 @@ Fixpoint replay (s : state) (evs : list (nat * nat)) : list (nat * bool * nat * 
   end.
 '''
 LIBS = (str(common.REPO) + '/xmlschema/', '/elementpath/')
-BODY_STMTS = ['self.check_loaded_schemas()', 'self.global_maps.load(schemas)', 'self.types.build_builtins(self.validator)',
-              'self.global_maps.build(schemas)', 'self.check(schemas)']
+# The five steps of the build body, identified by the callee (function name, file) of calls made - directly or through a
+# private helper - while a build() frame of the observed maps is running: no statement text or line number is used, so a
+# rewrite of build() that keeps its behaviour keeps the observation.
+MILESTONES = [('XsdGlobals.check_loaded_schemas', 'xsd_globals.py'), ('GlobalMaps.load', 'builders.py'),
+              ('TypesMap.build_builtins', 'builders.py'), ('GlobalMaps.build', 'builders.py'), ('XsdGlobals.check', 'xsd_globals.py')]
 
 
 class Stall(Exception):
@@ -55,6 +58,7 @@ class Sched:
         self.error = None
         self.target = None
         self.build_state = {}
+        self.acq_count = {}       # thread -> number of acquisitions of the build lock
 
     def tid(self):
         return self.tids.get(threading.get_ident())
@@ -130,13 +134,43 @@ class Sched:
                     self.cv.notify_all()
 
     # ---- tracing
+    def _build_frame_of(self, frame):
+        """the running build() frame of the observed maps that (within three levels) made this call, if any"""
+        f = frame.f_back
+        for _ in range(3):
+            if f is None:
+                return None
+            if f.f_code is BUILD['code']:
+                # (the innermost build() frame decides: a nested build of an ancestor's maps is not observed)
+                return f if f.f_locals.get('self') is self.target else None
+            f = f.f_back
+        return None
+
     def tracer(self, frame, event, arg):
         if event != 'call':
             return None
-        fn = frame.f_code.co_filename
+        code = frame.f_code
+        fn = code.co_filename
         if LIBS[0] in fn or LIBS[1] in fn:
-            if frame.f_code is BUILD['code'] and frame.f_locals.get('self') is self.target:
+            if code is BUILD['code'] and frame.f_locals.get('self') is self.target:
+                self.build_state[(self.tid(), id(frame))] = {'seen': False, 'locked': False, 'builder': False, 'flag': False,
+                                                             'done': 0, 'acqs': self.acq_count.get(self.tid(), 0)}
                 return self.line_tracer
+            key = (code.co_qualname, fn.rsplit('/', 1)[-1])
+            if key in MILESTONES:
+                bf = self._build_frame_of(frame)
+                st = bf is not None and self.build_state.get((self.tid(), id(bf)))
+                if st:
+                    k = MILESTONES.index(key)
+                    if not st['builder']:
+                        # a step of the build body outside the locked, re-checked section
+                        self.events.append(('unprotected_step', self.tid(), k))
+                    elif k == st['done']:
+                        st['done'] = k + 1
+                        if k == 0:
+                            self.events.append(('body_start', self.tid()))
+                    else:
+                        self.events.append(('step_out_of_order', self.tid(), k, st['done']))
             self.yield_point()
         return None
 
@@ -144,22 +178,25 @@ class Sched:
         me = self.tid()
         if event == 'line':
             maps = frame.f_locals['self']
-            line = frame.f_lineno
-            st = self.build_state.setdefault((me, id(frame)), {'locked': False, 'flag': False})
-            if line == BUILD['fast']:
-                self.events.append(('fast', me, bool(maps._built)))
-            elif line == BUILD['check2']:
-                st['locked'] = True
-                self.events.append(('check2', me, bool(maps._built)))
-            elif st['locked'] and line > BUILD['check2'] and line not in BUILD['returns']:
-                done = sum(1 for x in BUILD['body'] if x < line)
-                if line in BUILD['body'] and BUILD['body'].index(line) == 0:
-                    self.events.append(('body_start', me))
-                if bool(maps._built) and not st['flag']:
+            st = self.build_state[(me, id(frame))]
+            built = bool(maps._built)
+            if not st['seen']:
+                # the first line of the frame: the unlocked test of the flag
+                st['seen'] = True
+                self.events.append(('fast', me, built))
+            elif not st['locked']:
+                if self.acq_count.get(me, 0) > st['acqs']:
+                    # the first line after this thread took the build lock: the test is repeated
+                    st['locked'] = True
+                    st['builder'] = not built
+                    self.events.append(('check2', me, built))
+            elif st['builder']:
+                # `done` steps have been started - and, since the build frame itself is running, completed
+                if built and not st['flag']:
                     st['flag'] = True
-                    self.events.append(('flag', me, done))
+                    self.events.append(('flag', me, st['done']))
                 else:
-                    self.events.append(('progress', me, done, bool(maps._built)))
+                    self.events.append(('progress', me, st['done'], built))
             self.yield_point()
         return self.line_tracer
 
@@ -168,23 +205,9 @@ BUILD = {}
 
 
 def locate_build():
-    """line numbers of the protocol statements of XsdGlobals.build, located by their text (fails closed)"""
-    import inspect
+    """the code object of XsdGlobals.build (its frames are observed; nothing of its text is used)"""
     from xmlschema.validators.xsd_globals import XsdGlobals
-    src, first = inspect.getsourcelines(XsdGlobals.build)
-    code = XsdGlobals.build.__code__
-    checks = [first + i for i, l in enumerate(src) if l.strip() == 'if self._built:']
-    withs = [first + i for i, l in enumerate(src) if l.strip() == 'with self._build_lock:']
-    body = []
-    for stmt in BODY_STMTS:
-        hits = [first + i for i, l in enumerate(src) if l.strip() == stmt]
-        if len(hits) != 1:
-            raise RuntimeError('XsdGlobals.build: statement %r found %d times' % (stmt, len(hits)))
-        body.append(hits[0])
-    rets = [first + i for i, l in enumerate(src) if l.strip() == 'return']
-    if len(checks) != 2 or len(withs) != 1 or body != sorted(body) or not (checks[0] < withs[0] < checks[1] < body[0]):
-        raise RuntimeError('XsdGlobals.build does not have the double-checked locking shape the model transcribes')
-    BUILD.update(code=code, fast=checks[0], acquire=withs[0], check2=checks[1], body=body, returns=rets)
+    BUILD.update(code=XsdGlobals.build.__code__)
 
 
 class ProxyLock:
@@ -208,6 +231,7 @@ class ProxyLock:
         self.owner = me
         if self.name == 'build':
             s.events.append(('acq', me))
+            s.acq_count[me] = s.acq_count.get(me, 0) + 1
         return True
 
     def release(self):
@@ -401,6 +425,12 @@ def evaluate(ctx, cases):
         bad = None
         if starts != 1:
             bad = 'the build body ran %d times (C18_built_once: at most once, and once when the flag is up)' % starts
+        for e in o['events']:
+            if e[0] == 'unprotected_step':
+                bad = ('thread %d ran step %d of the build body (%s) outside the section that holds the build lock and has '
+                       're-tested the flag (C18_mutex / C18_built_once)' % (e[1], e[2], MILESTONES[e[2]][0]))
+            elif e[0] == 'step_out_of_order':
+                bad = 'thread %d ran step %d of the build body (%s) after %d completed steps' % (e[1], e[2], MILESTONES[e[2]][0], e[3])
         for k, ((t, steps), (kind, val), out) in enumerate(zip(evs, obs, m)):
             if bad:
                 break
